@@ -872,7 +872,18 @@ pub mod verif_hooks {
         problem: &VProblem,
         node: &VNode,
     ) -> VResult {
-        match run_bab_node(courses, participants, &problem.0, to_node(node), false) {
+        run_node_opt(courses, participants, problem, node, false)
+    }
+
+    /// run_node with the `report_no_solution` flag of the solver (a logging option)
+    pub fn run_node_opt(
+        courses: &[Course],
+        participants: &[Participant],
+        problem: &VProblem,
+        node: &VNode,
+        report_no_solution: bool,
+    ) -> VResult {
+        match run_bab_node(courses, participants, &problem.0, to_node(node), report_no_solution) {
             NoSolution => VResult::NoSolution,
             Infeasible(children, score) => {
                 VResult::Infeasible(children.iter().map(from_node).collect(), score)
